@@ -477,6 +477,16 @@ def c19_dyck(r, seed, tier, model_ok):
     for n in (50, 3000, 10000):
         for name, (t, w) in slices_faults.loops(n).items(): cases.append(dict(text=t, tlimit=120, family=f"{name} N={n}"))
     cases.append(dict(text=slices_faults.nontail(3000), tlimit=60)); cases.append(dict(text=slices_faults.nontail(6000), tlimit=60))
+    # ONE delayed expression that fails, bound to a parameter and needed several times - under tries (whose handlers return, measure or re-throw)
+    # and outside any try, in a list or a sum, in every order: the cached failure is replayed, and every replay is announced and closed
+    FAILS = ["(ㄱ ㄴㄱ ㅅㅎㄷ)", "(ㄴ ㄱ ㄴㄴㅎㄷ)", "(ㄴ ㄷㅂㅎㄴ ㄷㅈㅎㄴ)", "(ㄴ (ㄱ ㅁㅈㅎㄴ) ㄷㅎㄷ)", "(ㄹ (ㄴ ㄷ ㅁㄹㅎㄷ) ㅎㄴ)", "(ㄴ ㄷ ㄷㅎㄷ)"]
+    HS = ["(ㄱ ㅎ)", "(ㄱㅇㄱ ㅎ)", "(ㄱㅇㄱ ㅈㄷㅎㄴ ㅎ)", "(ㄱㅇㄱ ㄷㅈㅎㄴ ㅎ)", "(ㄱㅇㄴ ㅎ)"]
+    for _ in range(N(tier, 300, 5000)):
+        uses = [f"(ㄱㅇㄱ {R.choice(HS)} ㅅㄷㅎㄷ)" for _ in range(R.randrange(1, 4))] + ["ㄱㅇㄱ"] * R.randrange(0, 3); R.shuffle(uses); k = R.random()
+        body = " ".join(uses) + (f" ㅁㄹㅎ{G.enc(len(uses))}" if k < .4 else f" ㄷㅎ{G.enc(len(uses))}" if k < .7 else f" ㅁㄹㅎ{G.enc(len(uses))} ㅈㄷㅎㄴ")
+        t = f"{R.choice(FAILS)} ({body} ㅎ) ㅎㄴ"
+        if R.random() < .3: t = f"({t}) {R.choice(HS[:3])} ㅅㄷㅎㄷ"
+        cases.append(dict(text=t, family="shared-failing"))
     out = vlib.pmap(_dyck_one, cases, chunksize=20)
     bad = [dict(program=(c.get("family", "") + " " + c["text"])[:400], stdin=c.get("stdin", []), impl=o[0], model="well-nested events, depth back to zero, same observations as without observer", which=["events"]) for c, o in zip(cases, out) if o[0]]
     r.slice("observer_discipline", len(cases), len({c["text"] for c in cases if nontrivial(c["text"])}), [cases[0]["text"], cases[-3]["text"][:120]],
